@@ -23,6 +23,11 @@ class ConclusionSelector(LogicalOperator, ABC):
     """
     concluded_before: Dict[bool, SeenSet] = field(default_factory=lambda: {True: SeenSet(), False: SeenSet()},
                                                   init=False)
+    _answers_from_cache_: typing.ClassVar[bool] = False
+    """
+    A conclusion selector picks conclusions by the truth of its operands in the current evaluation, which a cached
+    output does not carry, so it always evaluates its operands.
+    """
 
     def update_conclusion(self, output: Dict[int, HashedValue], conclusions: typing.Set[Conclusion]) -> None:
         if not conclusions:
@@ -98,10 +103,6 @@ class ExceptIf(ConclusionSelector):
                 if self._yield_when_false_:
                     if not self._is_duplicate_output_(left_value):
                         yield left_value
-                continue
-
-            if is_caching_enabled() and self.right_cache.check(left_value):
-                yield from self.yield_final_output_from_cache(left_value, self.right_cache)
                 continue
 
             right_yielded = False
